@@ -141,6 +141,11 @@ impl PathResolver for ChainResolver {
     }
     fn resolve_ref(&self, reference: &Ref) -> Option<Dict> {
         self.calls.set(self.calls.get() + 1);
+        if self.calls.get() > 10_000 {
+            // far more than any terminating traversal of a handful of records needs: the evaluation is not
+            // converging (harness-side abort of the evaluation, reported by the caller)
+            panic!("HARNESS-CAP: resolve_ref called more than 10000 times in one evaluation");
+        }
         self.recs.get(&reference.value).cloned()
     }
 }
@@ -219,6 +224,10 @@ fn check_one(ctx: &mut Ctx, f: &FOr, rec_m: &MDict, refs_m: &ModelRefs, refs_l: 
     let expected = eval_or(f, rec_m, refs_m);
     let got = match lib_eval(&filter, &rec_l, refs_l) {
         Ok(b) => b,
+        Err(p) if p.msg.starts_with("HARNESS-CAP") => {
+            ctx.violation("eval:nontermination:resolve_ref-cap", &format!("evaluating '{text}' asked the resolver more than 10000 times over a 4-record world"), json!({"filter": text, "record": truncate(&MVal::Dict(rec_m.clone()).show(), 600)}));
+            return;
+        }
         Err(p) => {
             ctx.violation(&format!("eval:{}:{}", panic_sig(&p), fshape(f)), &format!("evaluation panicked: {}", p.msg), json!({"filter": text, "record": truncate(&MVal::Dict(rec_m.clone()).show(), 600)}));
             return;
